@@ -9,7 +9,9 @@ git -C /repo apply $d/patch.diff || { echo "$name PATCH-DOES-NOT-APPLY"; exit 9;
 cd /verif
 for c in $checks; do
   s=$(date +%s)
+  cp -f evidence/$c.json out/.evidence-$c.keep 2>/dev/null   # a seed run must not leave its evidence behind
   out=$(./check $c $tier 2>&1); rc=$?
+  [ -f out/.evidence-$c.keep ] && mv -f out/.evidence-$c.keep evidence/$c.json
   echo "$name $c $tier rc=$rc $(( $(date +%s)-s ))s :: $(echo "$out" | grep -E "^VIOLATION|^  harness|^KNOWN|^INCONCLUSIVE" | head -4 | cut -c1-230 | tr '\n' '|')"
 done
 git -C /repo checkout -- . && git -C /repo clean -fdq
